@@ -227,13 +227,20 @@ def _other_member(kind: str, k: int) -> dict:
     return [{"type": "boolean"}, {"type": "string"}][k % 2]
 
 
-def sibling_union(r: Rng, i: int) -> tuple[dict, str, dict, list[dict]]:
-    """(the union schema with sibling keywords, kind, the sibling keywords, its members)"""
+def sibling_union(r: Rng, i: int, ref_defs: dict | None = None) -> tuple[dict, str, dict, list[dict]]:
+    """(the union schema with sibling keywords, kind, the sibling keywords, its members). With `ref_defs` (a
+    definitions table to add to) every 11th union has its constrained member written as a `$ref` to a definition
+    `{"type": kind}` instead of inline (the generator does not merge sibling keywords into a `$ref` member:
+    known finding C04-sibling-ref)."""
     kind = SIB_KINDS[i % 3]
     order = SIB_ORDERS[(i // 3) % 4]
     three = (i // 12) % 2 == 1 or order == "null_middle"
     kws = _sibling_keywords(r, kind, i // 5)
     t = {"type": kind}
+    if ref_defs is not None and i % 11 == 10:
+        dn = f"Plain{kind.title()}{len(ref_defs)}"
+        ref_defs[dn] = {"type": kind}
+        t = {"$ref": f"#/definitions/{dn}"}
     other = _other_member(kind, i // 7)
     if order == "null_first":
         members = [{"type": "null"}, t] + ([other] if three else [])
@@ -285,7 +292,7 @@ def sibling_union_doc(rng: Rng, i: int, plain_names: bool = False) -> tuple[dict
     per: list[tuple[str, str, Any, dict, str, dict, list]] = []
     for pi, place in enumerate(SIB_PLACES):
         nm = names[pi]
-        u, kind, kws, members = sibling_union(rng.fork(nm), i * len(SIB_PLACES) + pi)
+        u, kind, kws, members = sibling_union(rng.fork(nm), i * len(SIB_PLACES) + pi, defs)
         sch, put = _wrap(place, u, defs, nm)
         props[nm] = sch
         if place == "member_required":
@@ -297,7 +304,10 @@ def sibling_union_doc(rng: Rng, i: int, plain_names: bool = False) -> tuple[dict
         per.append((nm, place, put, u, kind, kws, members))
         order = "no_null" if all(m.get("type") != "null" for m in members) else ("null_first" if members[0].get("type") == "null" else ("null_last" if members[-1].get("type") == "null" else "null_middle"))
         feats |= {f"sibling_place:{place}", f"sibling_kind:{kind}", f"sibling_order:{order}", f"sibling_members:{len(members)}", *(f"sibling_keyword:{k}" for k in kws)}
-        if order != "no_null" and members.index({"type": "null"}) < members.index({"type": kind}):
+        ti = next(j for j, m in enumerate(members) if m.get("type") == kind or "$ref" in m)
+        if "$ref" in members[ti]:
+            feats.add("sibling_constrained_member_is_ref")
+        if order != "no_null" and members.index({"type": "null"}) < ti:
             feats.add("sibling_null_before_constrained_member")
     doc: dict[str, Any] = {"title": "Model", "type": "object", "properties": props, "required": req}
     if defs:
@@ -317,8 +327,9 @@ def sibling_union_doc(rng: Rng, i: int, plain_names: bool = False) -> tuple[dict
                 insts.append({**base, nm: put("zq" if m.get("type") == "string" else 7)})
         loc = {"member": "member", "member_required": "member", "array_item": "array_item", "map_value": "ap_value", "def_ref": "member"}[place]
         path = [nm] + ([0] if place == "array_item" else (["k"] if place == "map_value" else []))
+        on_ref = any("$ref" in m for m in members)
         for kw, x in bad:
-            raw.append(Mutation({**base, nm: put(x)}, kw, loc, path, u, "none", True, x, [m for m in members if m.get("type") != kind]))
+            raw.append(Mutation({**base, nm: put(x)}, kw, loc, path, u, "sibling_keyword_on_ref_member" if on_ref else "none", True, x, [m for m in members if m.get("type") != kind and "$ref" not in m]))
     insts = [x for x in insts if semgen.is_valid(doc, x)]
     return doc, feats, insts, _confirm(doc, raw)
 
